@@ -103,6 +103,104 @@ theorem C11_depth_le_dtt_succ (g : Grammar) (v : Val) (h : ArgsMatchTerminality 
     v.depth ≤ dttSpec g v + 1 :=
   depth_le_dttSpec g v h
 
+/-! ### 3. Memoisation: reused subtrees must not carry stale values
+
+`relabelMemo` (Model/Labels.lean) is `relabel_nodes` with its early return on `gengy_labeled`.
+`CachesCorrect g t`: every label stored anywhere in `t` is `relabel g` of the subtree it sits on. -/
+
+/-- Soundness: on a tree whose stored labels are all correct the memoised algorithm returns the
+labels of the fresh algorithm, leaves the same program behind, stores the returned labels at the
+root (when the root can carry attributes) and all stored labels are again correct. -/
+theorem C11_memo_sound (g : Grammar) (t : LVal) (h : CachesCorrect g t) :
+    (relabelMemo g t).1 = relabel g t.erase ∧
+    (relabelMemo g t).2.erase = t.erase ∧
+    (relabelMemo g t).2.rootCache = (if t.canCache then some (relabel g t.erase) else none) ∧
+    CachesCorrect g (relabelMemo g t).2 := by
+  obtain ⟨h1, h2, h3, h4⟩ := memo_ok g t h
+  exact ⟨h1, h2, h4, h3⟩
+
+/-- On a value on which nothing is labelled yet, the memoised algorithm is the fold `relabel`. -/
+theorem C11_memo_fresh (g : Grammar) (v : Val) :
+    (relabelMemo g (LVal.fresh v)).1 = relabel g v ∧ (relabelMemo g (LVal.fresh v)).2.erase = v := by
+  obtain ⟨h1, h2, -, -⟩ := C11_memo_sound g (LVal.fresh v) (fresh_ok g v).1
+  rw [erase_fresh] at h1 h2
+  exact ⟨h1, h2⟩
+
+/-- A completely labelled tree is handed back untouched: its labels are reused, not recomputed
+(which is why their correctness is a hypothesis and not a consequence). -/
+theorem C11_memo_reuses (g : Grammar) (t : LVal) (h : t.fullyLabelled = true) :
+    (relabelMemo g t).2 = t :=
+  memo_fixes_labelled g t h
+
+/-- Every node of the relabelled program: if the stored labels are correct and labelling happened
+bottom-up (`labelClosed`: below a labelled object everything is labelled - fresh values, fully
+labelled values, and constructor applications over such values all are), then after
+`relabelMemo` EVERY class instance and list `x` of the program carries labels, and they are the
+flat-traversal specification evaluated on `x`. -/
+theorem C11_memo_every_node (g : Grammar) (t : LVal)
+    (hc : CachesCorrect g t) (hl : t.labelClosed = true) (ha : ArgsMatchTerminality g t.erase) :
+    ∀ x ∈ (relabelMemo g t).2.subtrees, x.canCache = true →
+      ∃ l, x.rootCache = some l ∧
+        l.nodes = nodesSpec g x.erase ∧ l.dtt = dttSpec g x.erase ∧
+        l.weighted = weightedSpec g x.erase ∧
+        ∀ k, lookupCount l.types k = typeCountSpec x.erase k := by
+  intro x hx hcan
+  obtain ⟨-, hera, -, hcc⟩ := C11_memo_sound g t hc
+  have hfull := memo_fullyLabelled g t ha hl
+  have hroot := labelled_flat g _ hcc hfull x hx hcan
+  have hsub : x.erase ∈ t.erase.subvalues := hera ▸ erase_mem_subvalues _ x hx
+  have hx' : ArgsMatchTerminality g x.erase := ha.sub hsub
+  exact ⟨_, hroot, C11_nodes_spec g _ hx', C11_dtt_spec g _, C11_weighted_spec g _ hx',
+    C11_types_spec g _ hx'⟩
+
+/-- One step of `apply_constructor` + `wrap_result` during creation, mutation or crossover: a
+new, unlabelled object (class instance, list or tuple) over children that are completely and
+correctly labelled satisfies the hypotheses of `C11_memo_every_node`; so does any tree obtained
+by repeating this.  Hence, by induction on the construction, all labels of all programs ever
+built this way equal the specification. -/
+theorem C11_memo_constructor (g : Grammar) (kids : List LVal)
+    (hc : CachesCorrectList g kids) (hf : LVal.fullyLabelledList kids = true) :
+    (∀ c d e, CachesCorrect g (.node none c d e kids) ∧ (LVal.node none c d e kids).labelClosed = true) ∧
+    (∀ d e, CachesCorrect g (.list none d e kids) ∧ (LVal.list none d e kids).labelClosed = true) ∧
+    (CachesCorrect g (.tuple kids) ∧ (LVal.tuple kids).labelClosed = true) := by
+  have hl := labelClosedList_of_fullyLabelledList kids hf
+  refine ⟨fun c d e => ⟨?_, ?_⟩, fun d e => ⟨?_, ?_⟩, ?_, ?_⟩
+  · simp only [CachesCorrect]; exact ⟨(fun l h => nomatch h), hc⟩
+  · simpa [LVal.labelClosed] using hl
+  · simp only [CachesCorrect]; exact ⟨(fun l h => nomatch h), hc⟩
+  · simpa [LVal.labelClosed] using hl
+  · simpa only [CachesCorrect] using hc
+  · simpa [LVal.labelClosed] using hl
+
+/-- ... and the result of the step is again completely and correctly labelled, i.e. usable as a
+child of the next step (for a tuple, which carries no labels itself: its elements are). -/
+theorem C11_memo_step (g : Grammar) (t : LVal)
+    (hc : CachesCorrect g t) (hl : t.labelClosed = true) (ha : ArgsMatchTerminality g t.erase) :
+    CachesCorrect g (relabelMemo g t).2 ∧ (relabelMemo g t).2.fullyLabelled = true ∧
+      (relabelMemo g t).2.erase = t.erase :=
+  ⟨(C11_memo_sound g t hc).2.2.2, memo_fullyLabelled g t ha hl, (C11_memo_sound g t hc).2.1⟩
+
+/-- The hypothesis is necessary: `Block([Add(Lit, Lit)])` whose list still carries the labels it
+had as `[Lit]` (element replaced in place, `gengy_labeled` not cleared).  The memoised algorithm
+trusts the stale labels: it reports 1 node, distance 1 and no `Add` beneath the `Block`, the
+structure has 2 nodes, distance 2 and one `Add`. -/
+theorem C11_memo_stale_witness :
+    ¬ CachesCorrect LabelsEx.g LabelsEx.staleProg ∧
+    (relabelMemo LabelsEx.g LabelsEx.staleProg).1.nodes = 1 ∧
+      nodesSpec LabelsEx.g LabelsEx.staleProg.erase = 2 ∧
+    (relabelMemo LabelsEx.g LabelsEx.staleProg).1.dtt = 1 ∧
+      dttSpec LabelsEx.g LabelsEx.staleProg.erase = 2 ∧
+    (relabelMemo LabelsEx.g LabelsEx.staleProg).1.weighted = 1 ∧
+      weightedSpec LabelsEx.g LabelsEx.staleProg.erase = 3 ∧
+    lookupCount (relabelMemo LabelsEx.g LabelsEx.staleProg).1.types (.cls 2) = 0 ∧
+      typeCountSpec LabelsEx.staleProg.erase (.cls 2) = 1 := by
+  refine ⟨?_, by decide, by decide, by decide, by decide, by decide, by decide, by decide, by decide⟩
+  intro h
+  simp only [LabelsEx.staleProg, CachesCorrect, CachesCorrectList] at h
+  have := congrArg Lab.nodes (h.2.1.1 _ rfl)
+  revert this
+  decide
+
 /-! ### Non-vacuity -/
 
 open LabelsEx in
@@ -135,5 +233,41 @@ example :
 
 example := C11_every_node LabelsEx.g LabelsEx.prog prog_ok
 example := C11_depth_le_dtt_succ LabelsEx.g LabelsEx.prog prog_ok
+
+/-- memoisation, non-vacuously: a reused labelled `Add` under new unlabelled objects (a list and
+a tuple among them) -/
+private theorem reused_ok :
+    CachesCorrect LabelsEx.g LabelsEx.reusedProg ∧ LabelsEx.reusedProg.labelClosed = true ∧
+      ArgsMatchTerminality LabelsEx.g LabelsEx.reusedProg.erase := by
+  have hadd := C11_memo_step LabelsEx.g
+    (LVal.fresh (.node 2 2 0 [.node 1 3 0 [], .node 1 3 0 []]))
+    (fresh_ok LabelsEx.g _).1 (fresh_ok LabelsEx.g _).2
+    (by
+      rw [erase_fresh]
+      intro c d e args hm ht
+      simp [Val.subvalues, Val.subvaluesList] at hm
+      rcases hm with h | h <;> first
+        | exact h.2.2.2
+        | (obtain ⟨rfl, -, -, -⟩ := h; exact absurd ht (by decide)))
+  refine ⟨?_, by decide, ?_⟩
+  · simp only [LabelsEx.reusedProg, CachesCorrect, CachesCorrectList]
+    exact ⟨(fun l h => nomatch h), ⟨(fun l h => nomatch h), ⟨(fun l h => nomatch h), ⟨hadd.1, trivial, trivial⟩, trivial⟩, trivial⟩, trivial⟩
+  · intro c d e args hm ht
+    have : LabelsEx.reusedProg.erase =
+        .node 3 0 0 [.list 1 0 [.node 4 2 0 [.tuple [.node 2 2 0 [.node 1 3 0 [], .node 1 3 0 []], .int 3]]]] := by
+      rfl
+    rw [this] at hm
+    simp [Val.subvalues, Val.subvaluesList] at hm
+    rcases hm with h | h | h | h <;> first
+      | exact h.2.2.2
+      | (obtain ⟨rfl, -, -, -⟩ := h; exact absurd ht (by decide))
+
+example := C11_memo_every_node LabelsEx.g LabelsEx.reusedProg reused_ok.1 reused_ok.2.1 reused_ok.2.2
+example : (relabelMemo LabelsEx.g LabelsEx.reusedProg).1.nodes = 3 ∧
+    (relabelMemo LabelsEx.g LabelsEx.reusedProg).1.dtt = 3 ∧
+    LabelsEx.reusedProg.fullyLabelled = false := by decide
+example : (relabelMemo LabelsEx.g LabelsEx.reusedProg).2.fullyLabelled = true :=
+  (C11_memo_step LabelsEx.g LabelsEx.reusedProg reused_ok.1 reused_ok.2.1 reused_ok.2.2).2.1
+example : ¬ CachesCorrect LabelsEx.g LabelsEx.staleProg := C11_memo_stale_witness.1
 
 end GEVerif.C11
